@@ -12,7 +12,7 @@ NOTE = ("Trusted base: rustc nightly MIR/resolution, /verif/driver (fact extract
 # id -> (implemented, technique, text, design_ref)
 P = {
     "C01": (True, "MIR must-pass-through / who-may-call over the paint routine", "Static rule discharge of the emit protocol (erase->paint->flush->commit order, commit only on success, single emitter). Does not decide the row arithmetic or screen contents.", "3/C01"),
-    "C02": (False, "type facts + dataflow over MultiState", "Static rule discharge: exclusive-access composition (Freeze + guard ownership), frame composed through the logical ordering, every InsertLocation arm maintains ordering, writers of ordering/free_set/members. Not linearizability or alignment arithmetic.", "3/C02"),
+    "C02": (True, "type facts + dataflow over MultiState", "Static rule discharge: exclusive-access composition (Freeze + guard ownership), frame composed through the logical ordering, every InsertLocation arm maintains ordering, writers of ordering/free_set/members. Not linearizability or alignment arithmetic.", "3/C02"),
     "C03": (True, "pairing-on-all-exits + const-argument + who-may-copy", "Static rule discharge: text rows never enter the erase count; println always forced; orphan lines moved not copied; zombie-row ownership transfer paired on all exits. Not screen contents.", "3/C03"),
     "C04": (True, "MIR dominance + per-variant arm effects", "Static rule discharge: forced final draw on every finish path, force flag bypasses every limiter, per-variant effects table, drop finishes exactly-once, API->variant map. Not the painted pixels.", "3/C04"),
     "C05": (True, "MIR dominance (gate structure)", "Static rule discharge of the gate structure only: limiter is the only gate for non-forced frames, position updates precede and do not depend on the gate, paint reads live state. The numeric token-bucket law is NOT decided.", "3/C05"),
